@@ -10,6 +10,7 @@ import (
 	"sync"
 	"syscall"
 
+	"verif/rt/vrt"
 	"verif/rt/vsched"
 )
 
@@ -121,6 +122,7 @@ func (p *Pipe) read(b []byte) (int, error) {
 		}
 	}
 	copy(b, p.buf[:n])
+	vrt.ArrW(b[:n], "buffer bytes", "vpipe.Read")
 	p.buf = p.buf[n:]
 	p.TotalRead += n
 	return n, nil
@@ -164,6 +166,7 @@ func (p *Pipe) write(b []byte) (int, error) {
 }
 
 func (p *Pipe) record(b []byte) {
+	vrt.ArrR(b, "buffer bytes", "vpipe.Write")
 	p.Writes = append(p.Writes, WriteRec{Thread: vsched.CurThread(), Off: len(p.Written), N: len(b), Stamp: vsched.MakeStamp()})
 	p.Written = append(p.Written, b...)
 	p.buf = append(p.buf, b...)
